@@ -5,7 +5,7 @@
    Gen/FsWalletSync.v), Wallet/NotifyProofs.v (invariants over all step sequences of the hand model
    Wallet/Notify.v). *)
 From Coq Require Import List String NArith Bool Arith.
-From FFS Require Import Conc.Lockset Conc.LocksetProofs Gen.FsWalletSync Conc.FsWallet.
+From FFS Require Import Conc.Lockset Conc.LocksetProofs Gen.FsWalletSync Conc.FsWallet Conc.ClosePaths.
 From FFS Require Import Wallet.Notify Wallet.NotifyProofs.
 Import ListNotations.
 Open Scope list_scope.
@@ -53,22 +53,29 @@ Qed.
 Print Assumptions C17_lock_regions_nonblocking.
 
 (* 3. Close returns — PARTIAL.  Proved on the translated control flow: Close cancels the listener
-      context and then waits for the done channel and for nothing else; every path through
-      startFilesystemListener (listener disabled, watcher creation failed, watcher started) has
-      closed that channel or started a goroutine whose first action is to defer a non-blocking
-      closure closing it; that goroutine's loop has a returning select branch fed by ctx.Done();
-      and (theorem 2) whatever the loop waits for inside notifyNewFiles is a mutex whose holder never
-      blocks.  NOT proved (assumed): fairness of the Go scheduler, that fsnotify's channels and
-      Watcher.Close do not block forever, termination of the critical sections. *)
+      context and then waits for the done channel and for nothing else (or waits for nothing);
+      along EVERY complete control-flow path through startFilesystemListener — any branch outcomes,
+      any number of loop iterations; listener disabled, watcher creation failed, watcher started —
+      the done channel is closed or a goroutine is started whose first action is to defer a
+      non-blocking closure closing it ([lpath], [tr_done]: Conc/ClosePaths.v, soundness of the
+      must-analysis proved by induction over paths); that goroutine's loop has a returning select
+      branch fed by ctx.Done(); and (theorem 2) whoever is about to block holds no mutex, so what the
+      loop waits for inside notifyNewFiles is a mutex whose holder can always move.
+      NOT proved (assumed): fairness of the Go scheduler, that fsnotify's channels and Watcher.Close
+      do not block forever, termination of the critical sections. *)
 Theorem C17_close_returns_partial :
   close_shape_ok fswallet_prog = true /\
+  (forall body tr r, lookup_body fswallet_prog "startFilesystemListener" = Some body ->
+     lpath body tr r -> tr_done fswallet_prog "w.fsListenerDone" tr = true) /\
   (forall s, reach fswallet_prog (init_state fswallet_main) s ->
      forall t th, threads s t = Some th -> about_to_block th = true -> t_held th = []).
 Proof.
-  split; [vm_compute; reflexivity|].
-  intros s Hr t th Ht Hb.
-  destruct (t_held th) eqn:E; auto. exfalso.
-  apply (proj1 (C17_lock_regions_nonblocking s Hr)). exists t, th. rewrite E. repeat split; auto. discriminate.
+  split; [vm_compute; reflexivity|]. split.
+  - intros body tr r Hl Hp. eapply must_sound; [|exact Hp].
+    vm_compute in Hl. inversion Hl; subst body. vm_compute. reflexivity.
+  - intros s Hr t th Ht Hb.
+    destruct (t_held th) eqn:E; auto. exfalso.
+    apply (proj1 (C17_lock_regions_nonblocking s Hr)). exists t, th. rewrite E. repeat split; auto. discriminate.
 Qed.
 Print Assumptions C17_close_returns_partial.
 
